@@ -836,6 +836,7 @@ namespace vw
         G* const shared = gs.share_grid ? main.grid : nullptr;
         if (shared)
             ++C["p.worlds_sharing_one_grid"];
+        ++C[std::string("p.grid_family.") + grid_kind_name(gs.kind)];
         // adjacency from a scratch grid: the worlds' own neighbour caches must stay cold until the
         // library itself (routers, possibly worker threads) fills them
         std::vector<std::vector<std::size_t>> adj;
